@@ -1188,7 +1188,9 @@ class CompilerPassGatherCode(CompilerPass):
 
         for line_num, line in enumerate(new_code):
             for label, target_line in label_map.items():
-                pattern = r"\b{}\b".format(re.escape(label))
+                # labels contain '.', so '\b' alone would also match a label
+                # inside a longer one ('update' in 'update.display')
+                pattern = r"(?<![\w.]){}(?![\w.])".format(re.escape(label))
                 if re.search(pattern, line):
                     if relative_numbers:
                         offset = target_line - line_num
